@@ -2,6 +2,7 @@
 package main
 
 import (
+	"context"
 	"bufio"
 	"bytes"
 	"errors"
@@ -149,6 +150,112 @@ func work(w *mon.W) {
 	sopt := rig.Options(func(o *config.Options) { o.MaxRequestBodySize = 1 << 24; o.DisablePreParseMultipartForm = true })
 	srv := &sview{rig.NewEngine(sopt, func(e *route.Engine) { e.NoRoute(obs.Handle) }), obs}
 	w.Cases("conn", uint64(w.Pick(40000, 1500000)), func(c *mon.Case) { oneConn(w, c, getC, srv) })
+	w.Cases("redirect", uint64(w.Pick(600, 20000)), func(c *mon.Case) { redirectCase(w, c, getC) })
+}
+
+// redirectCase: DoRedirects against a peer that answers 30x + Location, then 200. Every
+// hop the client sends is a request of its own: well-formed, and for the codes that keep
+// method and body (307, 308) it carries the body the application gave — or the client does
+// not follow (it hands the 30x to the caller), it never reports success for a hop that went
+// out without the body.
+func redirectCase(w *mon.W, c *mon.Case, getC func(ccfg) *cengine) {
+	if hangs >= 3 {
+		return
+	}
+	r := c.R
+	cf := ccfg{stream: r.Bool()}
+	ce := getC(cf)
+	code := r.Int(301, 302, 303, 307, 308, 307, 308)
+	a := &areq{Method: r.Str("POST", "PUT", "POST", "GET", "DELETE"), Path: "/a", SafeTarget: true}
+	a.BodyMode = r.Str("none", "bytes", "stream-known", "stream-unknown", "form")
+	if a.Method == "GET" {
+		a.BodyMode = "none"
+	}
+	switch a.BodyMode {
+	case "bytes", "stream-known", "stream-unknown":
+		a.Body = wire.PosBody(int(c.I), r.Int(1, 10, 100, 5000))
+	case "form":
+		a.Fields = map[string]string{"k": "v w", "z": "&="}
+	}
+	hop1 := fmt.Sprintf("HTTP/1.1 %d Redirect\r\nLocation: /b?hop=1\r\nContent-Length: 0\r\n\r\n", code)
+	hop2 := "HTTP/1.1 200 OK\r\nContent-Length: 4\r\n\r\ndone"
+	frags := [][][]byte{{[]byte(hop1)}, {[]byte(hop2)}}
+	var conns []*crig.SeqConn
+	ce.d.Buf = 4096
+	ce.d.Next = func() (net.Conn, error) {
+		done := 0
+		for _, sc := range conns {
+			done += len(sc.Marks)
+		}
+		if done > len(frags) {
+			done = len(frags)
+		}
+		sc := crig.NewSeqConn(frags[done:], false)
+		conns = append(conns, sc)
+		return sc, nil
+	}
+	defer ce.hc.CloseIdleConnections()
+	desc := fmt.Sprintf("%s /a body=%s/%d -> %d Location: /b?hop=1 -> 200; streaming responses=%v", a.Method, a.BodyMode, len(a.Body), code, cf.stream)
+	c.Detail = func() interface{} { return map[string]interface{}{"family": "redirect", "exchange": desc} }
+	req, resp := protocol.AcquireRequest(), protocol.AcquireResponse()
+	a.build(r, req)
+	type out struct {
+		err    error
+		status int
+		pv     interface{}
+	}
+	ch := make(chan out, 1)
+	go func() {
+		var o out
+		defer func() { o.pv = recover(); ch <- o }()
+		o.err = ce.hc.DoRedirects(context.Background(), req, resp, 3)
+		o.status = resp.StatusCode()
+	}()
+	var o out
+	select {
+	case o = <-ch:
+	case <-time.After(20 * time.Second):
+		hangs++
+		c.Violate("hang", "DoRedirects did not return: %s", desc)
+		return
+	}
+	protocol.ReleaseRequest(req)
+	protocol.ReleaseResponse(resp)
+	w.Count("redirect_calls", 1)
+	if o.pv != nil {
+		c.Violate("panic@DoRedirects", "DoRedirects panicked: %v (%s)", o.pv, desc)
+		return
+	}
+	var all []byte
+	for _, sc := range conns {
+		all = append(all, sc.Written()...)
+	}
+	msgs, err := wire.ParseRequests(all)
+	if err != nil || len(msgs) == 0 || len(msgs) > 2 {
+		c.Violate("request-malformed", "%s: the hops sent are not 1..2 well-formed requests (%d, %v): %q", desc, len(msgs), err, trunc(string(all), 400))
+		return
+	}
+	if len(msgs) == 1 {
+		// not followed: the caller gets the redirect itself
+		w.Count("redirects_not_followed", 1)
+		if o.err == nil && o.status != code {
+			c.Violate("response-mismatch", "%s: one request sent, DoRedirects returned nil with status %d", desc, o.status)
+		}
+		return
+	}
+	w.Count("redirects_followed", 1)
+	if msgs[1].Target != "/b?hop=1" {
+		c.Violate("request-mismatch", "%s: second hop has the target %q, want /b?hop=1", desc, msgs[1].Target)
+		return
+	}
+	if (code == 307 || code == 308) && (msgs[1].Method != msgs[0].Method || !bytes.Equal(msgs[1].Body, msgs[0].Body)) {
+		c.Violate("request-mismatch", "%s: the hop after the %d was sent as %s with %d body bytes (first hop: %s with %d) and DoRedirects returned err=%v status %d", desc, code, msgs[1].Method, len(msgs[1].Body), msgs[0].Method, len(msgs[0].Body), o.err, o.status)
+		return
+	}
+	if o.err == nil && o.status != 200 {
+		c.Violate("response-mismatch", "%s: both hops sent, DoRedirects returned nil with status %d", desc, o.status)
+	}
+	w.Shape(mon.Hash64("redirect", desc))
 }
 
 var safePaths = []string{"/p", "/p/a", "/p/a/b.txt", "/", "/x-y_z/1"}
@@ -456,9 +563,32 @@ func oneConn(w *mon.W, c *mon.Case, getC func(ccfg) *cengine, srv *sview) {
 	if r.Chance(3) {
 		ownResp = &protocol.Response{}
 	}
+	// ... and some with one Request object they adjust from exchange to exchange with the
+	// documented setters (method, URI, ResetBody, their own header fields) instead of Reset
+	var ownReq *protocol.Request
+	if r.Chance(4) {
+		simple := true
+		for _, a := range reqs {
+			if a.BodyMode != "none" && a.BodyMode != "bytes" && a.BodyMode != "stream-unknown" {
+				simple = false
+			}
+		}
+		if simple {
+			ownReq = &protocol.Request{}
+		}
+	}
 	for i := 0; i < n; i++ {
 		a, p := reqs[i], resps[i]
-		req := protocol.AcquireRequest()
+		req := ownReq
+		if req == nil {
+			req = protocol.AcquireRequest()
+		} else {
+			req.ResetBody()
+			for _, k := range []string{"X-A", "x-b", "X-Long-Name", "Accept"} {
+				req.Header.Del(k)
+			}
+			w.Count("exchanges_from_one_request_object", 1)
+		}
 		a.build(r, req)
 		var prep func(*protocol.Response)
 		if a.SkipBody {
@@ -471,7 +601,9 @@ func oneConn(w *mon.W, c *mon.Case, getC func(ccfg) *cengine, srv *sview) {
 				ownResp.SkipBody = false // the application's wish held for that call only
 			}
 		}
-		protocol.ReleaseRequest(req)
+		if ownReq == nil {
+			protocol.ReleaseRequest(req)
+		}
 		w.Count("exchanges", 1)
 		tag := fmt.Sprintf("exchange %d of %d [%s] config %+v", i, n, descr()[i], cf)
 		if o.Hang {
